@@ -574,6 +574,11 @@ func (s *Session) onPreprocess(resp *Response, req *Request) (continueProcess bo
 		if err2 != nil {
 			resp.Status = err2.Error()
 		}
+		if s.authMode == auth.DigestAuth {
+			// checkAuth replaces the nonce after a wrong response; the challenge
+			// must carry the nonce the next response will be checked against.
+			resp.SetDigestAuth(realm, s.nonce)
+		}
 		err = s.response(resp)
 		return false, err
 	}
